@@ -4,5 +4,5 @@ CHECKS = [
           quick=dict(checks=500, budget_s=45),
           thorough=dict(checks=4000, shards=16, budget_s=420),
           level_text="Real incoming Router (HTTP and gRPC listeners) with real config.NewConfig semantics, real DirectTransmission, fake Honeycomb recording X-Honeycomb-Team and serving /1/auth key ids. The 756-row table SendKeyMode x AcceptOnlyListedKeys x SendKey{set,unset} x key class x 7 endpoints is enumerated exhaustively on every run (replay tier, coverage key exhaustive_table_rows); on top, rapid-generated key strings, overlapping lists, near-miss keys/ids, header and encoding variants. Exploration beyond the table: does not prove absence.",
-          level_note="The collector is a pass-through double (spans are forwarded to the real upstream transmission with the key the router assigned); peers, stress relief and environment-lookup failures are out of scope here. 'Listed' is read as ReceiveKeys or ReceiveKeyIDs; unlisted-mode with a blank key is treated as undocumented."),
+          level_note="The lookup service is scripted per request (401, 4xx with JSON body, 5xx, hang-up, garbage); requests served while it fails are not judged, requests served while it is healthy must follow the tables whatever failed before (24 hand-kept histories + generated ones). The collector is a pass-through double (spans are forwarded to the real upstream transmission with the key the router assigned); peers, stress relief and environment-lookup failures are out of scope here. 'Listed' is read as ReceiveKeys or ReceiveKeyIDs; unlisted-mode with a blank key is treated as undocumented."),
 ]
